@@ -6,7 +6,7 @@ from be_check import run_be, replay_be
 
 PID = 'C16'
 MANIFEST = dict(
-    text='Machine-checked (Coq) on the backend micro-step model: a log call enqueues iff the level is at or above the logger\'s level at that step and otherwise changes nothing at all (no timestamp, no registration: the arguments are never touched); the sink loop writes one line per sink that is in the written set, and with no throwing sink a sink is in it iff the statement passes that sink\'s own level filter and own user filters - independent of the other sinks; a reused transit-event slot reports exactly the level given for every previous slot content (log_level() is decided by the call site\'s metadata, so the defensive reset of the stale field is irrelevant - DESIGN\'s original assumption was corrected). Model run against the real backend with level and filter changes interleaved with logging from several threads; monitor on the implementation: exhaustive level x logger level x sink level cross product (11x10x10) plus random multi-sink/filter cases. Not covered by a theorem here: the per-sink override pattern (formatting is C12\'s subject) and the static-level macros (the driver uses the dynamic-level entry point with every level). The override-pattern clause (each sink is handed the line of its own override pattern if it has one, else the logger\'s, independently of the other sinks and of their order) is decided by the sink-dispatch model shared with C12 (Properties_C12d: dispatch, independence and permutation theorems, refutation of the variant that carries the line across sinks; T-src fact on _write_log_statement; differential runs through the real backend with override and plain sinks in random order).',
+    text='Machine-checked (Coq) on the backend micro-step model: a log call enqueues iff the level is at or above the logger\'s level at that step and otherwise changes nothing at all (no timestamp, no registration: the arguments are never touched); the sink loop writes one line per sink that is in the written set, and with no throwing sink a sink is in it iff the statement passes that sink\'s own level filter and own user filters - independent of the other sinks; a reused transit-event slot reports exactly the level given for every previous slot content (log_level() is decided by the call site\'s metadata, so the defensive reset of the stale field is irrelevant - DESIGN\'s original assumption was corrected). Model run against the real backend with level and filter changes interleaved with logging from several threads; monitor on the implementation: exhaustive level x logger level x sink level cross product (11x10x10) plus random multi-sink/filter cases. Not covered by a theorem here: the per-sink override pattern (formatting is C12\'s subject) The LOG_*/LOGV_*/LOGJ_*/*_LIMIT/*_DYNAMIC macro families are run exhaustively (7 families x 9 levels x 10 logger levels) with an argument that has a side effect: arguments evaluated iff statement written iff level >= logger level (C16_macro_guard_is_enqueue_guard ties the macro guard to the model\'s enqueue guard). The override-pattern clause (each sink is handed the line of its own override pattern if it has one, else the logger\'s, independently of the other sinks and of their order) is decided by the sink-dispatch model shared with C12 (Properties_C12d: dispatch, independence and permutation theorems, refutation of the variant that carries the line across sinks; T-src fact on _write_log_statement; differential runs through the real backend with override and plain sinks in random order).',
     design='5 C16', technique='Coq proofs (level guard, sink-loop independence, slot reset) over the backend micro-step machine + source-fact translator + deterministic-driver differential correspondence')
 
 LEVELS = list(range(0, 9))
@@ -118,12 +118,51 @@ RULE = ('exhaustive cross product statement level (9) x logger level (10) x sink
         'plus random cases: 1-3 threads, 1-2 loggers, 1-3 sinks, set_log_level / set_log_level_filter / add_filter interleaved with logging and polls; '
         'non-trivial = at least one statement filtered by the logger level and one written; distinct by case text')
 
+def macro_phase(ck):
+    """exhaustive: 7 macro families x 9 statement levels x 10 logger levels through the real LOG_* macros with an
+    argument that has a side effect; model = the enqueue guard (level_passes); monitor = evaluated iff written iff
+    statement level >= logger level"""
+    mexe, err = ck.build_modelrun()
+    iexe, err2 = ck.build_harness('macro', ['macro.cpp'], san=False)
+    if not mexe or not iexe:
+        ck.violation('no-failing-input-found', 'macro harness or model did not build: ' + (err or err2 or '')[-400:]); return {'built': False}
+    cases = []
+    for lg in list(range(0, 9)) + [10]:     # 9 = Backtrace is rejected by set_log_level
+        toks = []
+        for fam in range(7):
+            for lv in range(9): toks += [fam, lv]
+        cases.append('lvl %d %s' % (lg, ' '.join(map(str, toks))))
+    ml = ck.run_model(mexe, cases); il = ck.run_impl(iexe, cases)
+    fails = 0
+    for c, m, i in zip(cases, ml, il):
+        t = [int(x) for x in c.split()[1:]]; lg = t[0]; pairs = list(zip(t[1::2], t[2::2]))
+        o = None if i.startswith(('CRASH', 'HANG', 'NOOUTPUT')) else [int(x) for x in i.split()]
+        msg = None
+        if o is None or len(o) != 2 * len(pairs): msg = 'implementation ' + i[:80]
+        else:
+            for k, (fam, lv) in enumerate(pairs):
+                want = 1 if lv >= lg else 0
+                if o[2 * k] != want:
+                    msg = 'macro family %d, statement level %d, logger level %d: arguments %s evaluated' % (fam, lv, lg, 'were' if o[2 * k] else 'were not'); break
+                if o[2 * k + 1] != want:
+                    msg = 'macro family %d, statement level %d, logger level %d: statement %s written' % (fam, lv, lg, 'was' if o[2 * k + 1] else 'was not'); break
+        if msg:
+            fails += 1
+            if fails <= 2:
+                ck.violation('impl-failing-input', 'property monitor on the implementation (LOG_* macros): ' + msg, case=c, expected=m, observed=i)
+        elif m != i:
+            fails += 1
+            if fails <= 1:
+                ck.violation('no-failing-input-found', 'correspondence level guard vs LOG_* macros: model and implementation differ', case=c, expected=m, observed=i)
+    return {'macro_statements': sum(len(c.split()) // 2 - 1 for c in cases), 'macro_cases': len(cases), 'macro_failures': fails, 'exhaustive': True}
+
+
 def dispatch_phase(ck, tier, broken):
     """the clause "each sink receives the line formatted with its own override pattern if it has one, else the
     logger's ... independently of the logger's other sinks": theorems Properties_C12d (sink dispatch model), their
     T-src tie and the patd correspondence through the real backend (shared with C12)"""
     import props.c12 as C12
-    return {'sink_dispatch': C12.dispatch_phase(ck, tier, broken)}
+    return {'sink_dispatch': C12.dispatch_phase(ck, tier, broken), 'macros': macro_phase(ck)}
 
 
 run = run_be(PID, 'Properties_C16', gen, monitor, nontrivial, RULE, n_quick=300, n_thorough=20000, corpus_cases=cross, extra_phase=dispatch_phase)
